@@ -88,6 +88,16 @@ def rand_input(rng, ftype, n, z0):
             z = (rng.uniform(0.2, 3) + 1j * rng.standard_normal()) * zl ** 2
             m[:, :] = z
         return m
+    if ftype in ("S", "Z", "Y") and n >= 2 and rng.random() < 0.06:
+        # uncoupled ports: an exactly diagonal matrix (separate one-port
+        # terminations on every port)
+        zl = np.sqrt(np.abs(z0))
+        d = (rng.standard_normal(n) + 1j * rng.standard_normal(n)) * 0.6
+        if ftype == "Z":
+            d = d * zl * zl
+        elif ftype == "Y":
+            d = d / (zl * zl)
+        return np.diag(d).astype(complex)
     if how < 2:
         s = (rng.standard_normal((n, n)) + 1j * rng.standard_normal((n, n))) \
             * rng.uniform(0.1, 0.8)
